@@ -2,7 +2,7 @@
    `shipped_protocols` and `secure_flag` are regenerated from conf/pygopherd.conf and
    pygopherd/protocols/*.py on every run (Gen/Config.v). *)
 From Coq Require Import String.
-From PG Require Import Lib.Str Model.ProtoId Gen.Config Model.Detect Proofs.C02Facts.
+From PG Require Import Lib.Str Model.ProtoId Gen.Config Model.Detect Proofs.C02Facts Proofs.C02More.
 Local Open Scope N_scope.
 
 (* the answer is the FIRST protocol of the configured list that accepts — for every list and order *)
@@ -47,6 +47,80 @@ Theorem C02_empty_field_refuted :
   exists req, detect_pinned shipped_waptop shipped_protocols false req [] = Raised.
 Proof. eexists. exact pinned_empty_field_raises. Qed.
 Print Assumptions C02_empty_field_refuted.
+
+(* "a deterministic function of the first request line and of whether the connection is TLS": the header block
+   is looked at only by the WAP class, only for lines of the HTTP shape, only on plaintext connections *)
+Theorem C02_headers_irrelevant_without_wap :
+  forall waptop ps tls req h1 h2, ~ In PWap ps -> detect waptop ps tls req h1 = detect waptop ps tls req h2.
+Proof. exact detect_headers_irrelevant_without_wap. Qed.
+Print Assumptions C02_headers_irrelevant_without_wap.
+
+Theorem C02_headers_irrelevant_unless_http :
+  forall waptop ps tls req h1 h2, http_shape req = false -> detect waptop ps tls req h1 = detect waptop ps tls req h2.
+Proof. exact detect_headers_irrelevant_unless_http. Qed.
+Print Assumptions C02_headers_irrelevant_unless_http.
+
+Theorem C02_headers_irrelevant_tls :
+  forall waptop ps req h1 h2, detect waptop ps true req h1 = detect waptop ps true req h2.
+Proof. intros waptop ps req h1 h2. exact (detect_headers_irrelevant_tls waptop ps req h1 h2 eq_refl). Qed.
+Print Assumptions C02_headers_irrelevant_tls.
+
+(* classes of the other TLS-ness are invisible to a connection *)
+Theorem C02_other_tls_invisible :
+  forall waptop ps tls req hdrs,
+    detect waptop ps tls req hdrs =
+    detect waptop (filter (fun p => Bool.eqb (secure_flag p) tls) ps) tls req hdrs.
+Proof. exact detect_filter_tls. Qed.
+Print Assumptions C02_other_tls_invisible.
+
+(* the answer is a member of the configured list; a class that declines can be removed or inserted anywhere;
+   a second copy of a class is dead *)
+Theorem C02_answer_in_list :
+  forall waptop ps tls req hdrs p, detect waptop ps tls req hdrs = Some p -> In p ps.
+Proof. exact detect_in. Qed.
+Print Assumptions C02_answer_in_list.
+
+Theorem C02_decliner_irrelevant :
+  forall waptop pre q post tls req hdrs, accepts waptop q tls req hdrs = false ->
+    detect waptop (pre ++ q :: post) tls req hdrs = detect waptop (pre ++ post) tls req hdrs.
+Proof. exact detect_skip. Qed.
+Print Assumptions C02_decliner_irrelevant.
+
+Theorem C02_duplicate_dead :
+  forall waptop pre p mid post tls req hdrs,
+    detect waptop (pre ++ p :: mid ++ p :: post) tls req hdrs = detect waptop (pre ++ p :: mid ++ post) tls req hdrs.
+Proof. exact detect_dup. Qed.
+Print Assumptions C02_duplicate_dead.
+
+(* totality for EVERY list with a catch-all of each kind, and only for those: without a catch-all the empty
+   line is claimed by nobody *)
+Theorem C02_total_iff_catchalls :
+  forall waptop ps,
+    (forall tls req hdrs, detect waptop ps tls req hdrs <> None) <->
+    ((exists p, In p ps /\ catch_all p = true /\ secure_flag p = true) /\
+     (exists p, In p ps /\ catch_all p = true /\ secure_flag p = false)).
+Proof. exact total_iff_catchalls. Qed.
+Print Assumptions C02_total_iff_catchalls.
+
+(* the order is observable where shapes overlap ("GET /<TAB>+ HTTP/1.0" is an HTTP line and a Gopher+ line;
+   the shipped order gives it to HTTP) and immaterial where they exclude one another (Gemini / HTTPS) *)
+Theorem C02_order_matters :
+  detect shipped_waptop [PHttp; PGopherPlus] false overlap_line [] = Some PHttp /\
+  detect shipped_waptop [PGopherPlus; PHttp] false overlap_line [] = Some PGopherPlus /\
+  detect shipped_waptop shipped_protocols false overlap_line [] = Some PHttp.
+Proof. exact order_matters. Qed.
+Print Assumptions C02_order_matters.
+
+Theorem C02_gemini_excludes_http : forall req, gemini_shape req = true -> http_shape req = false.
+Proof. exact gemini_not_http. Qed.
+Print Assumptions C02_gemini_excludes_http.
+
+Theorem C02_gemini_https_commute :
+  forall waptop pre post tls req hdrs,
+    detect waptop (pre ++ PGemini :: PHttps :: post) tls req hdrs =
+    detect waptop (pre ++ PHttps :: PGemini :: post) tls req hdrs.
+Proof. exact gemini_https_commute. Qed.
+Print Assumptions C02_gemini_https_commute.
 
 Example C02_example :
   detect shipped_waptop shipped_protocols false (lit "GET / HTTP/1.0"%string ++ [13;10]) [] = Some PHttp /\
